@@ -3,14 +3,26 @@
 //! scheduler-controlled equivalents so that a simulator decides every interleaving.
 //! The `shuttle` crate is supplied by the verification harness's manifest.
 
-pub use shuttle::sync::{Arc, Barrier, Condvar, Mutex, RwLock};
+// Everything `std::sync` offers, in shuttle's version (the pipeline uses Arc, Barrier, Condvar,
+// Mutex and RwLock today; the rest is here so that a change which reaches for another primitive
+// still builds under the seam).
+pub use shuttle::sync::{
+    mpsc, Arc, Barrier, BarrierWaitResult, Condvar, LockResult, Mutex, MutexGuard, Once, PoisonError,
+    RwLock, RwLockReadGuard, RwLockWriteGuard, TryLockError, TryLockResult, WaitTimeoutResult, Weak,
+};
 
 pub mod atomic {
-    pub use shuttle::sync::atomic::{AtomicI32, AtomicU32, AtomicU64, AtomicUsize, Ordering};
+    pub use shuttle::sync::atomic::{
+        fence, AtomicBool, AtomicI16, AtomicI32, AtomicI64, AtomicI8, AtomicIsize, AtomicPtr, AtomicU16,
+        AtomicU32, AtomicU64, AtomicU8, AtomicUsize, Ordering,
+    };
 }
 
 pub mod thread {
-    pub use shuttle::thread::{spawn, yield_now, JoinHandle};
+    pub use shuttle::thread::{
+        current, park, scope, spawn, yield_now, Builder, JoinHandle, Scope, ScopedJoinHandle, Thread,
+        ThreadId,
+    };
 
     /// Polling sleeps advance the logical clock and yield to the scheduler.
     pub fn sleep(d: std::time::Duration) {
